@@ -346,45 +346,56 @@ Definition intersect (h1 h2 : hrange) : outcome (option hrange * hrange * hrange
 Fixpoint nseq (lo : N) (n : nat) : list N :=
   match n with O => [] | S n' => lo :: nseq (lo + 1) n' end.
 
-(* hostlist_coalesce main loop; [i] is the loop variable *)
-Fixpoint coalesce_loop (fuel : nat) (h : hostlist) (i : nat) : outcome hostlist :=
-  match fuel with
-  | O => Hang site_coalesce_hang
-  | S f =>
-    match i with
-    | O => Ok h
-    | S i1 =>
-      match nth_error h i1, nth_error h i with
-      | Some hprev, Some hnext =>
-        bind (intersect hprev hnext) (fun t =>
-          let '(nw, hp, hx) := t in
-          match nw with
-          | None => coalesce_loop f (firstn i1 h ++ hp :: hx :: skipn (S i) h) i1
-          | Some nw =>
-            let hx1 := if hr_hi nw <? hr_hi hp then with_hi hx (hr_hi hp) else hx in
-            let hp1 := with_hi hp (hr_lo nw) in
-            let hx2 := with_lo hx1 (hr_hi nw) in
-            if hr_empty hp1 then MemErr site_coalesce_uaf
-            else if (hr_hi nw =? ULONG_MAX) || (1099511627776 <=? sub64 (hr_hi nw) (hr_lo nw)) then Hang site_coalesce_hang
-            else
-              let ks := nseq (hr_lo nw) (N.to_nat (hr_hi nw + 1 - hr_lo nw)) in
-              let one k := with_hi (with_lo nw k) k in
-              let ins := flat_map (fun k => (if hr_hi hp1 <? k then [one k] else []) ++
-                                            (if k <? hr_lo hx2 then [one k] else [])) ks in
-              let h' := firstn i1 h ++ hp1 :: ins ++ hx2 :: skipn (S i) h in
-              coalesce_loop f h' (length h' - 1)
-          end)
-      | _, _ => Ok h           (* unreachable: i < nranges *)
-      end
+(* hostlist_coalesce main loop.  One trip of `for (i = nranges - 1; i > 0; i--)`: state = (array, i);
+   inl = next state, inr = loop finished *)
+Definition coalesce_step (st : hostlist * nat) : outcome (hostlist * nat + hostlist) :=
+  let (h, i) := st in
+  match i with
+  | O => Ok (inr h)
+  | S i1 =>
+    match nth_error h i1, nth_error h i with
+    | Some hprev, Some hnext =>
+      bind (intersect hprev hnext) (fun t =>
+        let '(nw, hp, hx) := t in
+        match nw with
+        | None => Ok (inl (firstn i1 h ++ hp :: hx :: skipn (S i) h, i1))
+        | Some nw =>
+          let hx1 := if hr_hi nw <? hr_hi hp then with_hi hx (hr_hi hp) else hx in
+          let hp1 := with_hi hp (hr_lo nw) in
+          let hx2 := with_lo hx1 (hr_hi nw) in
+          if hr_empty hp1 then MemErr site_coalesce_uaf
+          else if (hr_hi nw =? ULONG_MAX) || (1099511627776 <=? sub64 (hr_hi nw) (hr_lo nw)) then Hang site_coalesce_hang
+          else
+            let ks := nseq (hr_lo nw) (N.to_nat (hr_hi nw + 1 - hr_lo nw)) in
+            let one k := with_hi (with_lo nw k) k in
+            let ins := flat_map (fun k => (if hr_hi hp1 <? k then [one k] else []) ++
+                                          (if k <? hr_lo hx2 then [one k] else [])) ks in
+            let h' := firstn i1 h ++ hp1 :: ins ++ hx2 :: skipn (S i) h in
+            Ok (inl (h', (length h' - 1)%nat))
+        end)
+    | _, _ => Ok (inr h)           (* unreachable: i < nranges *)
     end
   end.
 
-Definition coalesce_fuel (h : hostlist) : nat :=
-  let n := N.to_nat (fold_left (fun a r => a + hr_count r) h 0) in
-  (n * n + n + length h + 2)%nat * 2.
+(* up to 2^k trips *)
+Fixpoint coalesce_pow (k : nat) (st : hostlist * nat) : outcome (hostlist * nat + hostlist) :=
+  match k with
+  | O => coalesce_step st
+  | S k' => bind (coalesce_pow k' st) (fun r =>
+              match r with
+              | inl st' => coalesce_pow k' st'
+              | inr h => Ok (inr h)
+              end)
+  end.
+
+Definition COALESCE_LOG_FUEL : nat := 40.        (* DESIGN 4.1: more than 2^40 trips = Hang *)
 
 Definition coalesce (h : hostlist) : outcome hostlist :=
-  bind (coalesce_loop (coalesce_fuel h) h (length h - 1)) (fun h' => Ok (collapse h')).
+  bind (coalesce_pow COALESCE_LOG_FUEL (h, (length h - 1)%nat)) (fun r =>
+    match r with
+    | inl _ => Hang site_coalesce_hang
+    | inr h' => Ok (collapse h')
+    end).
 
 Definition sort (h : hostlist) : outcome hostlist :=
   if (length h <=? 1)%nat then Ok h else coalesce (isort h).
